@@ -18,6 +18,7 @@ ASSUMPTIONS = ['values: fixed integer panels A/B (+ seed panel)',
 def cases(tier, seed):
     out = spaces.family_space(tier, seed, INCLUDE, {'n_designs': 3}, k_values=(1, 50))
     out += spaces.reuse_space({'name': 'B', 'G': 4, 'T': 12}, INCLUDE, {'n_designs': 3}, d=2 if tier == 'thorough' else 1)
+    out += spaces.reuse2_space({'name': 'B', 'G': 4, 'T': 12}, {'n_designs': 3})
     return out
 
 
